@@ -7,10 +7,11 @@ DIFF=$O/m$K.diff; DEMO=$O/m${K}_demo_test.go
 DIR=$(head -1 $DEMO | sed 's,^// dir: *,,')
 cd $W && git checkout -q -- . && git clean -fdq
 cp $DEMO $W/$DIR/zz_demo_m${K}_test.go
-CLEAN=$(go test -vet=off -count=1 ./$DIR/ 2>&1 | tail -1)
+RUN=$(grep -o '^func Test[A-Za-z0-9_]*' $DEMO | sed 's/func //' | paste -sd'|')
+CLEAN=$(go test -vet=off -count=1 -run "^($RUN)\$" ./$DIR/ 2>&1 | tail -1)
 git apply $DIFF || { echo "PATCH DOES NOT APPLY"; exit 3; }
 BUILD=$(go build ./... 2>&1 | tail -2)
-PATCHED=$(go test -vet=off -count=1 ./$DIR/ 2>&1 | tail -1)
+PATCHED=$(go test -vet=off -count=1 -run "^($RUN)\$" ./$DIR/ 2>&1 | tail -1)
 rm $W/$DIR/zz_demo_m${K}_test.go
 SUITE=$(go test -vet=off -count=1 ./... 2>&1 | grep -v '^ok\|no test files' | grep -v TestBunch2 | head -5)
 git checkout -q -- . && git clean -fdq
